@@ -355,7 +355,7 @@ Definition puff (nil : bool) (outcap destlen : Z) (src : list Z) (sourcelen : Z)
   let c := mkCfg nil destlen outcap sourcelen in
   let s0 := mkSt [] 0 src 0 0 0 in
   match run_loop (8 * sourcelen + 8) (fun s => lift_step (block_step c s) (fun s => s)) s0 with
-  | Ok s => Ok (0, p_outcnt s, p_incnt s, rev (p_out s))
+  | Ok s => Ok (0, p_outcnt s, p_incnt s, rev_append (p_out s) [])
   | Err e => Ok (e, destlen, sourcelen, [])
   | Oob => Oob
   | NoFuel => NoFuel
